@@ -291,6 +291,106 @@ for _r, _forms in sorted(_GCM_ROUTES.items()):
                         thorough=[x for x in _gcm_shapes("thorough") if x["form"] in _forms and x not in _q]))
 
 
+# ---- BLAKE2b (generichash) and SipHash vs their specifications: everything symbolic ------------------------
+B2U = ["crypto_generichash/blake2b/ref/blake2b-ref.c", "crypto_generichash/blake2b/ref/generichash_blake2b.c",
+       "crypto_generichash/blake2b/ref/blake2b-compress-ref.c", "crypto_generichash/crypto_generichash.c", "sodium/utils.c"]
+
+
+def gh_inputs(p):
+    inp = {"msg": sym_bytes("m", p["len"]), "key": sym_bytes("k", p.get("klen", 0))}
+    if p["form"] == "salt_personal":
+        inp["salt"], inp["personal"] = sym_bytes("s", 16), sym_bytes("p", 16)
+    return inp
+
+
+def gh_spec(inp, p):
+    from . import hash_spec
+    ol, kl = p["outlen"], p.get("klen", 0)
+    bad = ol < 1 or ol > 64 or kl > 64
+    if bad:
+        return [aig.const_bits(0xffffffff, 32)]
+    out = hash_spec.blake2b(inp["msg"], ol, inp["key"], inp.get("salt"), inp.get("personal"))
+    return [aig.const_bits(0, 32)] + [_b(x) for x in out]
+
+
+def gh_run(it, entry, inp, p):
+    f, n, ol, kl = p["form"], p["len"], p["outlen"], p.get("klen", 0)
+    ret = lambda r: [aig.const_bits(r & 0xffffffff, 32)] if not isinstance(r, aig.AV) else [r.bits]
+    out = it.new_buffer(max(ol, 1), "out", False, [0] * max(ol, 1))
+    m = it.new_buffer(n, "m", False, [0] * n)
+    fill(it, m, inp["msg"])
+    k = it.new_buffer(kl, "k", False, [0] * kl)
+    fill(it, k, inp["key"])
+    kp = k if kl else 0
+    bad = ol < 1 or ol > 64 or kl > 64
+    if f == "oneshot":
+        r = it.call(_name(it, p.get("api", "crypto_generichash_blake2b")), [out, ol, m, n, kp, kl])
+    elif f == "salt_personal":
+        sa = it.new_buffer(16, "salt", False, [0] * 16)
+        pe = it.new_buffer(16, "pers", False, [0] * 16)
+        fill(it, sa, inp["salt"]); fill(it, pe, inp["personal"])
+        r = it.call(_name(it, "crypto_generichash_blake2b_salt_personal"), [out, ol, m, n, kp, kl, sa, pe])
+    else:   # streaming: init / update over the split points / final
+        pre = "crypto_generichash" if p.get("api") == "crypto_generichash" else "crypto_generichash_blake2b"
+        st = it.new_buffer(384, "state", False, [0] * 384)
+        r = it.call(_name(it, pre + "_init"), [st, kp, kl, ol])
+        if not bad:
+            cuts = [0] + list(p["splits"]) + [n]
+            for a, b in zip(cuts, cuts[1:]):
+                r2 = it.call(_name(it, pre + "_update"), [st, Ptr_off(m, a), b - a])
+                r = r if r2 == 0 else r2
+            r3 = it.call(_name(it, pre + "_final"), [st, out, ol])
+            r = r if r3 == 0 else r3
+    if bad:
+        return ret(r)
+    return ret(r) + [_b(x) for x in it.read_buffer(out, ol)]
+
+
+def _gh_shapes(tier):
+    q = []
+    lens = (0, 1, 64, 127, 128, 129, 256, 257) if tier == "quick" else tuple(range(0, 20)) + (63, 64, 65, 111, 127, 128, 129, 130, 191, 255, 256, 257, 383, 384, 385, 512)
+    for n in lens:
+        q.append(dict(form="oneshot", len=n, outlen=32, klen=0))
+        q.append(dict(form="oneshot", len=n, outlen=64, klen=32))
+    for ol, kl in ((1, 0), (16, 16), (64, 64), (33, 1)):
+        q.append(dict(form="oneshot", len=129, outlen=ol, klen=kl))
+        q.append(dict(form="oneshot", len=3, outlen=ol, klen=kl, api="crypto_generichash"))
+    for ol, kl in ((0, 0), (65, 0), (32, 65)):
+        q.append(dict(form="oneshot", len=3, outlen=ol, klen=kl))
+        q.append(dict(form="stream", len=3, outlen=ol, klen=kl, splits=()))
+    for n, kl in ((0, 0), (5, 16), (128, 0), (200, 64)):
+        q.append(dict(form="salt_personal", len=n, outlen=32, klen=kl))
+    sp = [(0, ()), (1, (0,)), (1, (1,)), (128, (0, 128)), (128, (64,)), (129, (128,)), (129, (1,)), (256, (128,)), (256, (127, 129)), (257, (1, 129, 256)),
+          (300, (100, 100, 228)), (64, (10, 20, 30))]
+    if tier != "quick":
+        sp += [(n, (a,)) for n in (127, 128, 129, 255, 256, 257) for a in (1, 63, 64, 126, 127)] + [(n, (a, b)) for n in (256, 260) for a in (0, 1, 127, 128) for b in (128, 129, 255, 256)]
+    for n, cuts in sp:
+        q.append(dict(form="stream", len=n, outlen=32, klen=0, splits=cuts))
+        q.append(dict(form="stream", len=n, outlen=64, klen=64, splits=cuts))
+    q.append(dict(form="stream", len=130, outlen=48, klen=7, splits=(129,), api="crypto_generichash"))
+    return q
+
+
+def sh_inputs(p):
+    return {"msg": sym_bytes("m", p["len"]), "key": sym_bytes("k", 16)}
+
+
+def sh_spec(inp, p):
+    from . import hash_spec
+    return [aig.const_bits(0, 32)] + [_b(x) for x in hash_spec.siphash(inp["msg"], inp["key"], p["out"])]
+
+
+def sh_run(it, entry, inp, p):
+    n, ol = p["len"], p["out"]
+    out = it.new_buffer(ol, "out", False, [0] * ol)
+    m = it.new_buffer(n, "m", False, [0] * n)
+    fill(it, m, inp["msg"])
+    k = it.new_buffer(16, "k", False, [0] * 16)
+    fill(it, k, inp["key"])
+    r = it.call(_name(it, "crypto_shorthash_siphash24" if ol == 8 else "crypto_shorthash_siphashx24"), [out, m, n, k])
+    return [aig.const_bits(r & 0xffffffff, 32)] + [_b(x) for x in it.read_buffer(out, ol)]
+
+
 def _aegis_shapes(alg, tier, impl):
     r = 32 if alg == "aegis128l" else 16
     q = []
@@ -319,6 +419,12 @@ def _aegis_units(alg):
     return [d + "aead_%s.c" % alg, d + "%s_aesni.c" % alg, d + "%s_soft.c" % alg, "crypto_core/softaes/softaes.c", "crypto_verify/verify.c", "sodium/utils.c"]
 
 
+TARGETS.append(dict(name="blake2b-ref-spec", inputs=gh_inputs, run=gh_run, sums=True, a=dict(spec=gh_spec), b=dict(units=B2U, entry=None),
+                    quick=_gh_shapes("quick"), thorough=[x for x in _gh_shapes("thorough") if x not in _gh_shapes("quick")]))
+TARGETS.append(dict(name="siphash-ref-spec", inputs=sh_inputs, run=sh_run, sums=True, a=dict(spec=sh_spec),
+                    b=dict(units=["crypto_shorthash/siphash24/ref/shorthash_siphash24_ref.c", "crypto_shorthash/siphash24/ref/shorthash_siphashx24_ref.c"], entry=None),
+                    quick=[dict(len=n, out=o) for n in (0, 1, 7, 8, 9, 15, 16, 17, 33) for o in (8, 16)],
+                    thorough=[dict(len=n, out=o) for n in list(range(2, 7)) + list(range(10, 15)) + list(range(18, 33)) + [63, 64, 65, 128] for o in (8, 16)]))
 for _alg in ("aegis128l", "aegis256"):
     for _be in ("aesni", "soft"):
         for _r, _forms in sorted(_GCM_ROUTES.items()):
@@ -359,7 +465,7 @@ def run_one(tname, tier, pidx, workroot, budget=900):
     t0 = time.time()
     try:
         T.MODE = "aig"
-        aig.reset(t.get("affine", False))
+        aig.reset(t.get("affine", False), t.get("sums", False))
         inp = t["inputs"](p)
         outs = []
         steps = []
@@ -425,7 +531,7 @@ def run_one(tname, tier, pidx, workroot, budget=900):
 def concrete_outputs(t, p, assign, workroot):
     tname = t["name"]
     T.MODE = "aig"
-    aig.reset(t.get("affine", False))
+    aig.reset(t.get("affine", False), t.get("sums", False))
     inp = t["inputs"](p)
     # concretise: map every input literal name to its value
     val = {}
